@@ -4,8 +4,11 @@ import (
 	"crypto/sha256"
 	"math/big"
 	"sync"
+	"time"
 
 	"github.com/gcash/bchd/chaincfg"
+	"github.com/gcash/bchd/chaincfg/chainhash"
+	"github.com/gcash/bchd/wire"
 	"golang.org/x/crypto/ripemd160"
 
 	"verif/ref"
@@ -131,4 +134,12 @@ func testPoints() []testPoint {
 		}
 	})
 	return points
+}
+
+// fixedHeader is wire.NewBlockHeader with a constant timestamp (NewBlockHeader stamps time.Now(),
+// which would make block hashes — and everything derived from them — differ from run to run).
+func fixedHeader(version int32, prev, merkle *chainhash.Hash, bits, nonce uint32) *wire.BlockHeader {
+	h := wire.NewBlockHeader(version, prev, merkle, bits, nonce)
+	h.Timestamp = time.Unix(1600000000, 0)
+	return h
 }
